@@ -245,12 +245,12 @@ def _run_chunk(cmd, lines, timeout, cwd=None, env=None):
         return _run_chunk(cmd, lines[:mid], timeout, cwd, env) + _run_chunk(cmd, lines[mid:], timeout, cwd, env)
 
 
-def run_lines(cmd, lines, timeout=600, jobs=NCPU, cwd=None, env=None):
+def run_lines(cmd, lines, timeout=600, jobs=NCPU, cwd=None, env=None, per_job=200):
     """pipe the lines through `cmd` split over `jobs` processes; one output line per input line."""
     n = len(lines)
     if n == 0:
         return []
-    jobs = max(1, min(jobs, (n + 199) // 200))
+    jobs = max(1, min(jobs, (n + per_job - 1) // per_job))
     size = (n + jobs - 1) // jobs
     chunks = [lines[i:i + size] for i in range(0, n, size)]
     with ThreadPoolExecutor(max_workers=jobs) as ex:
